@@ -1,5 +1,6 @@
 #!/bin/bash
 # usage: tools/seedrun.sh <seed dir containing patch.diff> <check ids...>   — runs the checks against /repo/src + patch (scratch copy)
+export VERIF_EVIDENCE=${VERIF_EVIDENCE:-/verif/.scratch/evidence_seeded}; mkdir -p $VERIF_EVIDENCE/replays
 P=$(realpath $1)/patch.diff; shift
 D=$(mktemp -d /tmp/seedrun.XXXXXX)
 cp -r /repo/src $D/src
